@@ -252,6 +252,10 @@ class ArgumentAdder(_ArgumentChanger):
                 raise rope.base.exceptions.RefactoringError(
                     "Adding duplicate parameter: <%s>." % self.name
                 )
+        if definition_info.is_method and self.index == 0:
+            raise rope.base.exceptions.RefactoringError(
+                "A parameter cannot be added before the first parameter of a method."
+            )
         definition_info.args_with_defaults.insert(self.index, (self.name, self.default))
 
     def change_argument_mapping(self, definition_info, mapping):
